@@ -8,6 +8,9 @@ minimum/maximum_word_length, isempty, isfinite, random_word, successors / succes
 as atomic calls (key=None, fresh callables, or ONE callable `rank.get` of a shared dict that is
 re-filled between the calls), minify / to_partial (read the `_get_digraph` memo), complement,
 union, comparisons with another DFA (==, <=, >=, <, >, issubset, isdisjoint) and clear_cache().
+Round 3: CORRELATED successor-search calls (the chains of harness/ops/C14.py): a call starts at the word the
+previous call returned (computed by the brute-force oracle when the history is generated), with strictness /
+direction / window / wrapper / ranking changed in between (successor → successor(strict=False) → predecessor …).
 
 Property oracle (independent of the model): every answer of the long-lived instance is compared
 with the answer of the same call on a *fresh copy* (for `next(g)`: a fresh copy on which the same
@@ -42,7 +45,8 @@ LEVEL = "proof"
 RULE = ("cases = (valid DFA, history of ≤30 public calls on one instance, incl. live generators of all three kinds "
         "(words_of_length, iter, successors/predecessors) advanced between other calls and across clear_cache, abandoned "
         "generators, minify / to_partial (digraph memo), successor search with key=None / fresh callables / one shared "
-        "callable whose ranking changes between calls); corpus (mutant killers, short-after-long and long-after-short "
+        "callable whose ranking changes between calls; correlated chains: a call starts at the previous answer with "
+        "strictness / direction / window / ranking flipped); corpus (mutant killers, written-out successor loops, short-after-long and long-after-short "
         "lengths, shared-key pairs, generators across clear_cache), all histories of length ≤2 (thorough: ≤3) over 18 "
         "call groups on 20 DFAs, then random histories on shaped random DFAs (≤6 states); evaluations = calls compared "
         "with a fresh copy; a history is non-trivial when it contains ≥2 cache-touching calls on a DFA with a "
@@ -63,6 +67,8 @@ EXPLANATION = ("Theorem C20_history: for every DFA and every finite history the 
                "random histories and evaluates the property on the real code against fresh copies.")
 
 NX_FUEL = 60
+HANGS = 0           # histories ended by a real call that did not return (time / memory guard of L.guarded)
+MAX_HANGS = 8
 MEMO = ["_get_digraph", "isempty", "isfinite", "cardinality", "minimum_word_length", "maximum_word_length"]
 OTHER_OPS = ["eq", "le", "ge", "lt", "gt", "issubset", "issuperset", "isdisjoint",
              "complement", "complement_keep", "union", "union_keep"]
@@ -366,8 +372,25 @@ def run_history(ctx: Ctx, d: DFA, other: DFA, hist, origin: str, kmax: int):
     real, snaps, bad = [], [], []
     touching = 0
     fresh_graph = None
+    hung = False
+    full_hist = hist
     for i, q in enumerate(hist):
         a = R.run(q)
+        if a == ("err", "_Timeout"):
+            # the call did not return (time or memory guard): the object is left in an arbitrary state, possibly
+            # with caches grown without bound — judge this call, then end the history (no snapshot, no sweep)
+            global HANGS
+            HANGS += 1
+            hung = True
+            ctx.case(None)
+            ctx.stat("history_ended_by_a_call_that_did_not_return")
+            f = fresh_answer(d, other, q, R.kinds, R.nexts)
+            if f is not None and f != a:
+                bad.append(f"call #{i} {show_q(q)} after {i} earlier calls did not return (time / memory guard); the same "
+                           f"call on a fresh copy answers {str(f)[:120]}")
+            full_hist = hist[: i + 1]
+            hist = hist[:i]
+            break
         real.append(a)
         snaps.append(snapshot(inst, st, sy))
         if snaps[-1][2][0]:
@@ -395,13 +418,13 @@ def run_history(ctx: Ctx, d: DFA, other: DFA, hist, origin: str, kmax: int):
         if f is not None and f != a:
             bad.append(f"call #{i} {show_q(q)} after {i} earlier calls answered {str(a)[:120]}; the same call on a fresh copy answers {str(f)[:120]}")
     # final sweep: every populated level must still give the fresh answers
-    for k in range(len(inst._count_cache)):
+    for k in range(0 if hung else len(inst._count_cache)):
         a = call(lambda: inst.count_words_of_length(k))
         c = d.copy()
         f = call(lambda: c.count_words_of_length(k))
         if a != f:
             bad.append(f"after the history, count_words_of_length({k}) = {a}, fresh copy: {f}")
-    for k in range(len(inst._word_cache)):
+    for k in range(0 if hung else len(inst._word_cache)):
         a = call(lambda: list(inst.words_of_length(k)))
         c = d.copy()
         f = call(lambda: list(c.words_of_length(k)))
@@ -414,7 +437,9 @@ def run_history(ctx: Ctx, d: DFA, other: DFA, hist, origin: str, kmax: int):
     if ctx.stats.get(f"origin:{origin}", 0) % 400 == 1:
         ctx.sample(dict(describe(d, other, hist[:8]), answers=[str(a)[:60] for a in real[:8]]))
     for b in bad:
-        ctx.prop_fail(b, dict(describe(d, other, hist), what=b), None)
+        ctx.prop_fail(b, dict(describe(d, other, full_hist), what=b), None)
+    if hung:
+        inst.clear_cache()
     # ---- model
     mod = model_history(ctx, enc, sy, hist)
     need = max([kmax + 1] + [max(len(ct), len(wt)) for ct, wt, _ in snaps])
@@ -720,13 +745,17 @@ def run(ctx: Ctx):
                     if q["q"] in ("SU", "FI", "SO"):
                         shape = shape or L.language_shape(d)
                         ok = ok and S.in_domain(d, q["p"], shape)
-                if ok:
+                if ok and HANGS < MAX_HANGS:
                     run_history(ctx, d, other, hist, "exhaustive", 5)
     ctx.exhaustive(f"all sequences of ≤{Lmax} call groups out of {len(MACROS)} (count 0/2/4, words 1 exhausted, words 3 one step, "
                    "words 2 unopened, iter two steps, cardinality, min, max, isfinite, random_word, clear_cache, "
                    "successors, predecessor, successors generator two steps, to_partial, minify) on 20 fixed DFAs over {a,b}")
     # ---- random histories
     for _ in range(ctx.budget(700, 25000)):
+        if HANGS >= MAX_HANGS:
+            ctx.note(f"{HANGS} histories ended by a real call that did not return within {S.TIMEOUT_S}s / its memory "
+                     "allowance; random histories cut short")
+            break
         d, kind = L.shaped_dfa(rng, 6)
         if not d.input_symbols:
             continue
